@@ -172,18 +172,29 @@ SimAppRegular ==
 \* late messages (of epochs the receiver has left but still retains): first deliveries in any order of epochs
 \* (ascending and descending), re-delivery of accepted ones.  Drawn with a weight of its own: the regular
 \* disjuncts have so many instances that uniformly chosen successors would hardly ever be late ones.
+\* (priorities, all deterministic so that ENABLED and the step agree: a write as soon as a member has touched two
+\* stored prior epochs newer first; else, for a member that has touched a stored epoch, a message of an older stored
+\* epoch it has not consumed yet; else any readable late message or a re-delivery of a recent late one)
+DescPair(p) == \E x, y \in 1..Len(repo[p].upd) : x < y /\ repo[p].upd[x].epoch > repo[p].upd[y].epoch
+DescCands ==
+    {c \in UNION {{<<q, a>> : a \in 1..Len(apps)} : q \in Mem} :
+        LET q == c[1]  a == c[2] IN
+        /\ repo[q].upd # <<>> /\ ~DescPair(q)
+        /\ apps[a].epoch < repo[q].upd[Len(repo[q].upd)].epoch
+        /\ \E k \in 1..Len(store[q].epochs) : store[q].epochs[k].ks = apps[a].ks
+        /\ ~\E k \in 1..Len(repo[q].upd) : repo[q].upd[k].ks = apps[a].ks
+        /\ \E g \in apps[a].lo..apps[a].hi : ~\E j \in Accepted : hist[j].p = q /\ hist[j].args.app = a /\ hist[j].args.gen = g}
 SimAppLate ==
+    IF "storage" \in Features /\ \E p \in Mem : DescPair(p)
+    THEN \E p \in {p \in Mem : DescPair(p)} : Write(p)
+    ELSE IF DescCands # {}
+    THEN \E c \in DescCands :
+            \E gen \in {g \in apps[c[2]].lo..apps[c[2]].hi : ~\E j \in Accepted : hist[j].p = c[1] /\ hist[j].args.app = c[2] /\ hist[j].args.gen = g} :
+                DeliverApp(c[1], c[2], gen)
+    ELSE
     \/ \E q \in Mem : \E a \in {a \in 1..Len(apps) : apps[a].ks # grp[q].ks /\ Readable(q, a)} :
             \E gen \in {apps[a].lo, apps[a].hi} : DeliverApp(q, a, gen)
     \/ \E i \in {i \in LateAccepted : Cardinality({j \in LateAccepted : j > i}) < 3} : DeliverApp(hist[i].p, hist[i].args.app, hist[i].args.gen)
-    \* after a late message, one of an older epoch the receiver can still read (descending order of epochs), and a
-    \* write while two or more stored prior epochs have been touched
-    \/ \E i \in {i \in LateAccepted : Cardinality({j \in LateAccepted : j > i}) < 2} :
-            \E a \in {a \in 1..Len(apps) : Readable(hist[i].p, a) /\ apps[a].epoch < apps[hist[i].args.app].epoch} :
-                \* a generation this receiver has not accepted yet (so that the stored record really changes)
-                \E gen \in {g \in apps[a].lo..apps[a].hi : ~\E j \in Accepted : hist[j].p = hist[i].p /\ hist[j].args.app = a /\ hist[j].args.gen = g} :
-                    DeliverApp(hist[i].p, a, gen)
-    \/ "storage" \in Features /\ \E p \in Mem : Len(repo[p].upd) >= 2 /\ Write(p)
 SimApp == IF RandomElement(1..(10 + Z)) <= LateBias /\ ENABLED SimAppLate THEN SimAppLate ELSE SimAppRegular
 
 SimStore ==
